@@ -11,7 +11,7 @@ RULE = ("cases: (a) size arithmetic: one (file size, k, N, max segment size) tup
         "get_all_encoding_parameters / Encoder / CRS codecs / DownloadNode._calculate_sizes / WriteBucketProxy and the "
         "model; (b) one read(offset,size) through the real DownloadNode.read + Segmentation over a stub segment source; "
         "(c) one DecryptingConsumer run; (d) one grid operation = upload, or one download/read of an uploaded file with "
-        "a (schedule seed, surviving share subset, offset, size).  Sizes are centred on multiples of k, of the segment "
+        "a (schedule seed, surviving share subset, offset, size); plus empty and literal-sized files (0,1,2,15,16,17,54,55 bytes, and 56) uploaded and read back whole and by ranges, with and without servers.  Sizes are centred on multiples of k, of the segment "
         "size, of 16, on 56 and on powers of two.  distinct = distinct input tuples; all are non-trivial except reads "
         "clipped to zero bytes.")
 META = {
@@ -669,6 +669,68 @@ def grid(ctx):
     ctx.trace(len(terms) - len(bad))
 
 
+LIT_SIZES = [0, 1, 2, 15, 16, 17, 54, 55, 56]
+
+
+def literal_case(ctx, g, size, i, servers):
+    """Upload `size` bytes through the client API, check the cap kind, read it
+    back whole and by ranges.  Oracle only (bytes equal, LIT iff size <= 55, the
+    LIT cap is URI:LIT: + unpadded lower-case base32 of the data); the literal
+    cap syntax is modelled in C05 (Model/Convergence.v), not here."""
+    import base64
+    from allmydata import uri
+    data = make_data(size, 7000 + i)
+    case = {"size": size, "i": 7000 + i, "servers": servers, "literal_stream": True, "k": 3, "n": 10, "happy": 1,
+            "max_segment_size": 128, "seed": i, "fifo": "server"}
+    ctx.case(("lit-up", size, i, servers), kind="grid-literal-upload" if size <= 55 else "grid-first-chk-upload")
+    out = g.run(lambda: g.upload(data, convergence=b"C01"), outcome=True)
+    if out.status != "ok":
+        ctx.oracle_fail("small-file-upload-fails:" + str(out.error), "upload of a %d-byte file (%d servers): %s %s" % (size, servers, out.status, out.error),
+                        case=case, observed=str(out.failure)[-600:] if out.failure else out.hung_info)
+        return
+    cap = out.value
+    want_cap = b"URI:LIT:" + base64.b32encode(data).rstrip(b"=").lower()
+    is_lit = cap.startswith(b"URI:LIT:")
+    if is_lit != (size <= 55) or (is_lit and cap != want_cap):
+        ctx.oracle_fail("small-file-cap-wrong", "a %d-byte file got cap %r (literal iff size <= 55; literal cap embeds the data)" % (size, cap[:80]),
+                        case=case, expected=want_cap.decode() if size <= 55 else "URI:CHK:...", observed=cap.decode())
+    if not is_lit:
+        u = uri.from_string(cap)
+        if (u.size, u.needed_shares, u.total_shares) != (size, 3, 10):
+            ctx.oracle_fail("cap-or-placement-wrong", "cap fields %r for a %d-byte 3-of-10 upload" % ((u.size, u.needed_shares, u.total_shares), size), case=case)
+    reads = [(0, None), (0, size), (0, size + 3), (size, None), (size + 1, 2)]
+    r = ctx.rng("lit-read", size, i)
+    for _ in range(4):
+        off = r.choice([0, 1, max(0, size - 1), r.randrange(0, size + 1)])
+        off = min(off, size)
+        reads.append((off, r.choice([None, 0, 1, size - off, r.randrange(0, size - off + 2)])))
+    for off, sz in reads:
+        want = data[off:] if sz is None else data[off:off + sz]
+        dcase = dict(case, offset=off, read_size=sz)
+        ctx.case(("lit-read", size, i, off, sz) if want else None, kind="grid-literal-read" if is_lit else "grid-range")
+        o2 = g.run(lambda: g.download_range(cap, off, sz), outcome=True)
+        if o2.status != "ok":
+            ctx.oracle_fail("small-file-read-fails:" + str(o2.error), "read(%d,%r) of a %d-byte file (cap %s...): %s %s" % (
+                off, sz, size, cap[:12].decode(), o2.status, o2.error), case=dcase, observed=str(o2.failure)[-600:] if o2.failure else o2.hung_info)
+        elif o2.value != want:
+            ctx.oracle_fail("roundtrip-wrong-bytes", "read(%d,%r) of a %d-byte file returned %r, expected %r" % (off, sz, size, o2.value[:60], want[:60]),
+                            case=dcase, expected=want.hex(), observed=o2.value.hex())
+
+
+def literal(ctx):
+    """Empty and literal-sized files, and the first CHK size."""
+    from core import grid as G
+    ctx.note("literal-sized files: oracle only in C01 (cap kind, embedded data, bytes read back); the LIT cap syntax is modelled and proved in C05")
+    extra = ctx.n(3, 30)
+    with G.Grid(num_servers=4, k=3, n=10, happy=1, max_segment_size=128, seed=ctx.seed, timeout=60) as g:
+        for i, size in enumerate(LIT_SIZES + [ctx.rng("lit-size", j).randrange(0, 58) for j in range(extra)]):
+            literal_case(ctx, g, size, i, 4)
+    # literal files need no servers at all
+    with G.Grid(num_servers=0, k=3, n=10, happy=1, seed=ctx.seed, timeout=60) as g:
+        for i, size in enumerate([s for s in LIT_SIZES if s <= 55]):
+            literal_case(ctx, g, size, 100 + i, 0)
+
+
 def corpus(ctx):
     import glob
     import json
@@ -684,6 +746,7 @@ def run(ctx):
     arith(ctx)
     segmentation(ctx)
     ctr(ctx)
+    literal(ctx)
     grid(ctx)
 
 
@@ -705,6 +768,11 @@ def replay(ctx, record):
         model = ctx.coq_eval(IMPORTS, "let s := upload_segsize %s %s %s in (s, encoder_params %s %s s, calculate_sizes %s %s s)" % (
             T.N(case["max_segment_size"]), T.N(case["size"]), T.N(case["k"]), T.N(case["size"]), T.N(case["k"]), T.N(case["size"]), T.N(case["k"])))
         return {"implementation": got, "model": model}
+    if case.get("literal_stream"):
+        from core import grid as G
+        with G.Grid(num_servers=case["servers"], k=3, n=10, happy=1, max_segment_size=128, seed=case.get("seed", 0), timeout=60) as g:
+            literal_case(ctx, g, case["size"], case["i"] - 7000, case["servers"])
+        return {"size": case["size"], "failures": [f["kind"] for f in ctx.failures]}
     if "servers" in case:
         from core import grid as G
         size = case["size"]
